@@ -264,7 +264,9 @@ def gen_pam(rng: random.Random, d: dict, focus: dict) -> list[dict]:
     edits, used_pos, used_codon = [], set(), set()
     for t in d['targetons']:
         for _ in range(rng.choice(focus.get('n_pam', [0, 1, 1, 2, 3]))):
-            if rng.random() < focus.get('p_pam_outside', 0.1):
+            if rng.random() < focus.get('p_pam_edge', 0.0):
+                p = rng.choice([t['ref_start'] + rng.randint(0, 3), t['ref_end'] - rng.randint(0, 3)])
+            elif rng.random() < focus.get('p_pam_outside', 0.1):
                 p = rng.choice([t['ref_start'] - rng.randint(1, 8), t['ref_end'] + rng.randint(1, 8)])
             elif rng.random() < 0.6:
                 p = rng.randint(max(t['ref_start'], t['r2_start'] - 4), min(t['ref_end'], t['r2_end'] + 4))
@@ -413,9 +415,19 @@ def gen_bg(rng: random.Random, d: dict, focus: dict) -> list[dict]:
         lo, hi = min(lo, exons[0][0] - 10), max(hi, exons[-1][1] + 10)
     lo, hi = max(3, lo), min(n - 8, hi)
     pam_pos = {p['pos'] for p in (d.get('pam') or [])}
-    for _ in range(rng.choice(focus.get('n_bg', [1, 1, 2, 3, 4]))):
-        kind = rng.choice(kinds)
-        p = rng.randint(lo, hi)
+    custom_span = set()
+    for v in d.get('vcfs') or []:
+        for rec in v['records']:
+            custom_span |= set(range(rec['pos'], rec['pos'] + len(rec['ref'])))
+    plan = [(rng.choice(kinds), rng.randint(lo, hi)) for _ in range(rng.choice(focus.get('n_bg', [1, 1, 2, 3, 4])))]
+    if focus.get('bg_upstream'):
+        # a coordinate-shifting variant upstream of (or inside, before region 2 of) a targeton: tried at several spots
+        for t in d['targetons']:
+            for _k in range(6):
+                plan.insert(0, (rng.choice(['ins', 'del']), rng.randint(max(lo, t['ref_start'] - 20), max(lo, t['r2_start'] - 2))))
+    for kind, p in plan:
+        if len(recs) >= focus.get('max_bg', 5):
+            break
         if kind == 'snv':
             span = [p]
             alt = rng.choice([c for c in NT if c != U[p - 1]])
@@ -446,6 +458,8 @@ def gen_bg(rng: random.Random, d: dict, focus: dict) -> list[dict]:
         wide = set(range(span[0] - 1, span[-1] + 2))
         if wide & taken or wide & pam_pos:
             continue
+        if kind in ('snv', 'mnv') and set(span) & custom_span:
+            continue      # a background substitution under a custom record changes its REF: outside the quantifier
         taken |= wide
         rec['id'] = f'bg{len(recs)}'
         rec['kind'] = kind
